@@ -553,16 +553,20 @@ def check_urlset(ctx, prog):
     ctx.check(len(st) == 1 and const_val(st[0]['a'][2]) == 16, 'C15.urlset', d['pq'], 'decode:two hex digits base 16', fwhere(d), 'strtoul(b, NULL, 16)', 'Url::decode does not convert the two characters after % with base 16')
     pq = fn1(prog, 'asl::Url::parseQuery')
     ctx.analysed(pq)
-    seps = sorted(set(e['v'] for e in fn_exprs(pq) if e.get('k') == 'int' and e.get('chr')))
+    # separator and rewrite characters: character literals or one-character string literals
+    seps = sorted(set(e['v'] for e in fn_exprs(pq) if e.get('k') == 'int' and e.get('chr')) | set(e['b'][0] for e in fn_exprs(pq) if e.get('k') == 'str' and len(e.get('b') or []) == 1))
+
+    def is_plus(w):
+        return (w.get('k') == 'int' and w.get('v') == ord('+')) or (w.get('k') == 'str' and w.get('b') == [ord('+')])
     ctx.check(set(seps) <= need | {32} and {ord('&'), ord('=')} <= set(seps), 'C15.urlset', pq['pq'], 'parseQuery:separators are escaped by params()', fwhere(pq), 'splits on %s' % [chr(x) for x in seps],
               'parseQuery splits/rewrites on %s, not all of which params() escapes' % [chr(x) for x in seps])
     # '+' -> ' ' belongs to the raw query text: it must be applied before percent-decoding, never to a decoded key/value
     plus_after = []
     for e in fn_exprs(pq):
-        if e.get('k') == 'call' and (e.get('pq') or '').split('::')[-1] in ('replace', 'replaceme') and e.get('a') and any(w.get('k') == 'int' and w.get('v') == ord('+') for w in walk_expr(e['a'][0])):
+        if e.get('k') == 'call' and (e.get('pq') or '').split('::')[-1] in ('replace', 'replaceme') and e.get('a') and any(is_plus(w) for w in walk_expr(e['a'][0])):
             if any(w.get('k') == 'call' and w.get('pq') == 'asl::Url::decode' for w in walk_expr(e.get('obj') or {})):
                 plus_after.append(e)
-    plus_before = [e for e in fn_exprs(pq) if e.get('k') == 'call' and (e.get('pq') or '').split('::')[-1] in ('replace', 'replaceme') and e.get('a') and any(w.get('k') == 'int' and w.get('v') == ord('+') for w in walk_expr(e['a'][0]))
+    plus_before = [e for e in fn_exprs(pq) if e.get('k') == 'call' and (e.get('pq') or '').split('::')[-1] in ('replace', 'replaceme') and e.get('a') and any(is_plus(w) for w in walk_expr(e['a'][0]))
                    and e.get('obj') is not None and strip(e['obj']).get('k') == 'var' and strip(e['obj']).get('vk') == 'param']
     decs = [e for e in fn_exprs(pq) if e.get('k') == 'call' and e.get('pq') == 'asl::Url::decode']
     ctx.check(not plus_after and bool(plus_before) and len(decs) >= 2, 'C15.urlset', pq['pq'], "parseQuery:'+' rewritten before percent-decoding", fwhere(pq, plus_after[0]['l'] if plus_after else None),
@@ -570,7 +574,7 @@ def check_urlset(ctx, prog):
     pr = fn1(prog, 'asl::Url::params', '(const asl::Dic<asl::String> &)')
     ctx.analysed(pr)
     encs = [e for e in fn_exprs(pr) if e.get('k') == 'call' and e.get('pq') == 'asl::Url::encode']
-    ctx.check(len(encs) == 2 and all(const_val(e['a'][1]) == 1 for e in encs), 'C15.urlset', pr['pq'], 'params:keys and values encoded in component mode', fwhere(pr), 'encode(k,true), encode(v,true)',
+    ctx.check(len(encs) == 2 and all(const_val(q.expand(pr, e['a'][1])) == 1 for e in encs), 'C15.urlset', pr['pq'], 'params:keys and values encoded in component mode', fwhere(pr), 'encode(k,true), encode(v,true)',
               'params() does not encode both key and value in component mode')
 
 
